@@ -302,6 +302,29 @@ def fan_case(rnd, cid, thr=None):
                 removeEmpty=rnd.random() < .9, nsDict=NSDICT, inverse=rnd.random() < .2)
 
 
+def or_fan_case(rnd, cid):
+    """disjunctions that lose an arm: hub nodes link through ONE property to nodes of 3-4 leaf shapes (shape map); some leaves keep a
+    shared feature, the others have none and are removed as empty, so '@L1 OR @L2 OR @L3' is rewritten after the removal"""
+    k = rnd.randint(3, 4)
+    per = rnd.randint(2, 3)
+    hubs = [M.iri(EX + "h%d" % j) for j in range(per)]
+    T, items = [], []
+    for x in hubs:
+        items.append({"label": EX + "shapes/L0", "labelSpelling": "bracket", "spelling": "bracket", "kind": "node", "node": list(x)})
+    empty = set(rnd.sample(range(1, k + 1), rnd.randint(1, k - 2)))
+    for i in range(1, k + 1):
+        leaves = [M.iri(EX + "l%d_%d" % (i, j)) for j in range(per)]
+        for j, x in enumerate(leaves):
+            items.append({"label": EX + "shapes/L%d" % i, "labelSpelling": "bracket", "spelling": "bracket", "kind": "node", "node": list(x)})
+            if i not in empty:
+                T.append((x, EX + "common%d" % i, M.lit("c")))
+        for j, h in enumerate(hubs):
+            T.append((h, EX + "to", leaves[j % per]))
+    rnd.shuffle(T)
+    return case(cid, T, mode="shapemap", items=items, thr=rnd.choice([[0, 1], [1, 2], [1, 1]]), removeEmpty=True, nsDict=NSDICT,
+                disableOr=False, redundantOr=rnd.random() < .5, inverse=rnd.random() < .2, allCompliant=rnd.random() < .5)
+
+
 def chain_case(rnd, cid):
     """shape-map shapes L0 -> L1 -> ... -> Ln linked by one property; the last shape has no feature shared by all its nodes, the
     middle ones only the link: with a threshold the removal of the last shape cascades backwards (remove_empty_shapes)"""
